@@ -777,6 +777,10 @@ func collectGuards(b *ssa.BasicBlock) markGuards {
 		case *ssa.Call:
 			ci := calleeOf(&c.Call)
 			if !onTrue && len(c.Call.Args) > 0 {
+				if strippedCopy(c.Call.Args[0], map[ssa.Value]bool{}, 0) != nil {
+					// asked of the copy Unmark() returned: always unmarked, the test proves nothing
+					continue
+				}
 				switch {
 				case ci.isCtyValueMethod("ContainsMarked"):
 					g.deep[normSubject(c.Call.Args[0])] = true
